@@ -65,6 +65,35 @@ Definition syn_get (seed : Z) (flt : fault) (addr : bytes) : got :=
         gen s k (fun p => let j := p / RL in
                           nth (Z.to_nat (p mod RL)) (enc (a + j * B) (Z.min B (n - j * B))) 0%N))).
 
+(** ** files of identical chunks ("lift" cases): [n] full chunks with the same content
+    followed by an optional shorter tail of [tail] bytes, built by the harness through the
+    real writer stages (plain: 32-byte references, branching 8192; encrypted: 64-byte
+    references address ++ key, branching 4096, read through the real decrypting store).
+    The model reads the same tree shape with [rl]-byte references; reference bytes are
+    synthetic (the joiner never interprets them), the content is the harness's pattern. *)
+Definition lift_byte (n tail o : Z) : N :=
+  if o <? n * CS then Z.to_N ((1 + (o mod CS + 8) mod 251) mod 256)
+  else Z.to_N ((7 + (o - n * CS + 8) mod 251) mod 256).
+
+Definition encr (rl a n : Z) : bytes := enc a n ++ repeat 0%N (Z.to_nat (rl - 32)).
+
+Fixpoint branch_of_g (br : Z) (fuel : nat) (n B : Z) : Z :=
+  match fuel with
+  | O => B
+  | S f => if B <=? (n - 1) / br then branch_of_g br f n (B * br) else B
+  end.
+
+Definition lift_get (rl : Z) (content : Z -> N) (addr : bytes) : got :=
+  let '(a, n) := dec addr in
+  if n <=? CS then GOk n (mkV n (fun s k => gen (a + s) k content))
+  else
+    let B := branch_of_g (CS / rl) 8 n CS in
+    let r := (n + B - 1) / B in
+    GOk n (mkV (r * rl) (fun s k =>
+      if (s mod rl =? 0) && (k =? rl) then let j := s / rl in encr rl (a + j * B) (Z.min B (n - j * B)) else
+      gen s k (fun p => let j := p / rl in
+                        nth (Z.to_nat (p mod rl)) (encr rl (a + j * B) (Z.min B (n - j * B))) 0%N))).
+
 (** operations *)
 Inductive op :=
 | OReadAt (blen bcap off : Z)
@@ -84,7 +113,8 @@ Inductive obs :=
 
 Inductive case :=
 | CJoin (size seed : Z) (flt : fault) (steps : list (op * obs))
-| CNewFail (size seed : Z) (flt : fault).          (* joiner.New returned an error *)
+| CNewFail (size seed : Z) (flt : fault)           (* joiner.New returned an error *)
+| CLift (encrypted : bool) (n tail : Z) (steps : list (op * obs)).
 
 Definition canary (bcap : Z) : bytes := repeat 238%N (Z.to_nat bcap).
 
@@ -97,16 +127,18 @@ Definition pair_N_eqb (a b : N * N) : bool := N.eqb (fst a) (fst b) && N.eqb (sn
 Definition model_read (r : Z * list (Z * bytes) * rerr) (bcap : Z) : Z * N * bytes :=
   let '(n, ws, e) := r in (n, rerr_code e, apply_writes (canary bcap) ws).
 
-Definition step_model (get : bytes -> got) (j : joiner) (o : op) : joiner * (Z * N * option bytes) :=
+Definition step_model_g (rl : Z) (get : bytes -> got) (j : joiner) (o : op) : joiner * (Z * N * option bytes) :=
   match o with
   | OReadAt blen bcap off =>
-      let '(n, e, b) := model_read (read_at get CS RL j blen bcap off) bcap in (j, (n, e, Some b))
+      let '(n, e, b) := model_read (read_at get CS rl j blen bcap off) bcap in (j, (n, e, Some b))
   | ORead blen bcap =>
-      let '(j', r) := read get CS RL j blen bcap in
+      let '(j', r) := read get CS rl j blen bcap in
       let '(n, e, b) := model_read r bcap in (j', (n, e, Some b))
   | OSeek offset whence =>
       let '(j', (p, e)) := seek j offset whence in (j', (p, serr_code e, None))
   end.
+
+Definition step_model := step_model_g RL.
 
 Definition obs_matches (m : Z * N * option bytes) (ob : obs) : bool :=
   let '(n, e, b) := m in
@@ -120,12 +152,24 @@ Definition obs_matches (m : Z * N * option bytes) (ob : obs) : bool :=
   | _, _ => false
   end.
 
-Fixpoint run_steps (get : bytes -> got) (j : joiner) (steps : list (op * obs)) (i : nat) : option nat :=
+Fixpoint run_steps_g (rl : Z) (get : bytes -> got) (j : joiner) (steps : list (op * obs)) (i : nat) : option nat :=
   match steps with
   | [] => None
   | (o, ob) :: rest =>
-      let '(j', m) := step_model get j o in
-      if obs_matches m ob then run_steps get j' rest (S i) else Some i
+      let '(j', m) := step_model_g rl get j o in
+      if obs_matches m ob then run_steps_g rl get j' rest (S i) else Some i
+  end.
+Definition run_steps := run_steps_g RL.
+
+Definition lift_rl (encrypted : bool) : Z := if encrypted then 2 * RL else RL.
+Definition lift_size (n tail : Z) : Z := n * CS + tail.
+(** index of the first disagreeing step of a lift case (0 = Size) *)
+Definition lift_first_bad (encrypted : bool) (n tail : Z) (steps : list (op * obs)) : option nat :=
+  let rl := lift_rl encrypted in
+  let get := lift_get rl (lift_byte n tail) in
+  match joiner_new get (encr rl 0 (lift_size n tail)) with
+  | Some j => run_steps_g rl get j steps 1
+  | None => Some 0%nat
   end.
 
 Definition first_bad (c : case) : option nat :=
@@ -137,16 +181,25 @@ Definition first_bad (c : case) : option nat :=
       end
   | CNewFail size seed flt =>
       match joiner_new (syn_get seed flt) (enc 0 size) with Some _ => Some 0%nat | None => None end
+  | CLift e n tail steps => lift_first_bad e n tail steps
   end.
 
 Definition check_case (c : case) : bool := match first_bad c with None => true | Some _ => false end.
 
-Fixpoint replay (get : bytes -> got) (j : joiner) (steps : list (op * obs)) : list (Z * N * option (N * N)) :=
+Fixpoint replay_g (rl : Z) (get : bytes -> got) (j : joiner) (steps : list (op * obs)) : list (Z * N * option (N * N)) :=
   match steps with
   | [] => []
   | (o, _) :: rest =>
-      let '(j', (n, e, b)) := step_model get j o in
-      (n, e, option_map dig b) :: replay get j' rest
+      let '(j', (n, e, b)) := step_model_g rl get j o in
+      (n, e, option_map dig b) :: replay_g rl get j' rest
+  end.
+Definition replay := replay_g RL.
+Definition lift_replay (encrypted : bool) (n tail : Z) (steps : list (op * obs)) :=
+  let rl := lift_rl encrypted in
+  let get := lift_get rl (lift_byte n tail) in
+  match joiner_new get (encr rl 0 (lift_size n tail)) with
+  | Some j => replay_g rl get j steps
+  | None => []
   end.
 
 (** index of the first disagreeing step, and what the model computed for every step *)
@@ -156,4 +209,5 @@ Definition explain_case (c : case) :=
       (first_bad c, match joiner_new (syn_get seed flt) (enc 0 size) with
                     | Some j => replay (syn_get seed flt) j steps | None => [] end)
   | CNewFail _ _ _ => (first_bad c, [])
+  | CLift e n tail steps => (first_bad c, lift_replay e n tail steps)
   end.
